@@ -13,3 +13,5 @@ Proof. vm_compute. reflexivity. Qed.
 Lemma tie_first_call_allowed : forall dfr : frame,
   f_depth dfr = 0%Z -> (f_depth dfr + 1 <= max_macro_depth)%Z.
 Proof. intros dfr H. pose proof tie_macro_depth_positive. lia. Qed.
+
+From PV Require Export Tie.E2.
